@@ -8,7 +8,8 @@ Construction rules (sound before complete):
 * every case file is listed by exactly one line of exactly one suite: plain names are `c<N>.case`, every glob line owns
   a unique tag (`g<N>` ...) that no other file name contains; decoy files sit next to the matches and must NOT match;
 * names are made of [A-Za-z0-9_.] only, never start with '.', a listing line never starts with '[' and holds one
-  unquoted token;
+  unquoted token; the style plain_quoted adds lines that are one quoted token whose name contains blanks and the
+  characters * ? [ ] ! (a plain file name: see vlib/ref/c16_suite.py QuotedName);
 * symbolic links are siblings of their targets (so that "relative the location of the suite file" has one reading);
 * `**` is only used below directories that contain no directory links;
 * faults (missing file, double inclusion, cycle, syntax error, undecodable suite file, directory as case, bad command
@@ -105,7 +106,7 @@ def _w(pairs):
     return st.sampled_from(_spread(pairs))
 
 
-_CASE_LINE_STYLES = _w([('plain', 8), ('plain_sub', 2), ('plain_dot', 1), ('plain_link', 1), ('glob_prefix', 4), ('glob_q', 2),
+_CASE_LINE_STYLES = _w([('plain', 8), ('plain_quoted', 2), ('plain_sub', 2), ('plain_dot', 1), ('plain_link', 1), ('glob_prefix', 4), ('glob_q', 2),
                         ('glob_class', 2), ('glob_dir', 3), ('glob_rec', 2), ('glob_rec_dir', 2), ('glob_up', 1),
                         ('glob_empty', 1), ('glob_mid', 1)])
 _SUB_STYLES = _w([('file', 6), ('file_subdir', 3), ('dirref', 4), ('dirref_explicit', 1), ('glob', 3), ('glob_dirs', 1),
@@ -210,6 +211,18 @@ class _Builder:
             name = ('ppf%d.case' if o == 'PRE_PROCESS_ERROR' else 'c%d.case') % n
             self.add_case(j(sdir, name), o)
             rec['cases'].append(name)
+            return 1
+        if style == 'plain_quoted':
+            # one quoted token = the file of exactly that name; a sibling that the name, read as a pattern, would
+            # match is not listed and must not run
+            form, decoy = d(st.sampled_from([('o%d[1].case', 'o%d1.case'), ('o%d?.case', 'o%dx.case'),
+                                             ('o%d*.case', 'o%dab.case'), ('o%d [!a].case', 'o%d b.case'),
+                                             ('o %d.case', None), ('o%d[1].case', None), ('*o%d.case', 'xo%d.case')]))
+            self.add_case(j(sdir, form % n))
+            if decoy is not None:
+                self.add_case(j(sdir, decoy % n), d(st.sampled_from(['FAIL', 'PASS'])), decoy=True)
+            q = d(st.sampled_from(["'", '"']))
+            rec['cases'].append(q + (form % n) + q)
             return 1
         if style == 'plain_sub':
             name = 'k%d/c%d.case' % (n, n)
@@ -419,7 +432,11 @@ class _Builder:
         tdir = t['dir']
         n = self.uid()
         if fault == 'missing_case':
-            line = d(st.sampled_from(['c%d.case', 'nodir%d/c.case', './c%d.case'])) % n
+            line = d(st.sampled_from(['c%d.case', 'nodir%d/c.case', './c%d.case', "'c%d?.case'", '"c%d[1].case"',
+                                      "'c %d.case'"])) % n
+            if line[0] in '\'"' and d(st.booleans()):
+                # a file that the quoted name, read as a pattern, would match
+                self.add_case(j(tdir, line[1:-1].replace('?', 'x').replace('[1]', '1').replace(' ', '_')), decoy=True)
             self._insert(t['cases'], line)
         elif fault == 'missing_case_link':
             self.add(j(tdir, 'c%d.case' % n), 'link', 'nothing%d.case' % n)
